@@ -251,6 +251,9 @@ func scenarioC05(r *Run) {
 			w.causes = append(w.causes, stopCause{Kind: "error", Begin: w.seq(), End: -1})
 		case fRecvDataEOF:
 			w.causes = append(w.causes, stopCause{Kind: "eof", Begin: w.seq(), End: -1})
+		case fSendErrLost, fSendErrAfter:
+			// whether a failed Send ends the client is the implementation's choice
+			w.causes = append(w.causes, stopCause{Kind: "error", Begin: w.seq(), End: -1, Optional: true})
 		}
 	}
 	s := r.Sample.(map[string]any)
@@ -362,7 +365,7 @@ func (w *cliWorld) checkC05(final bool) {
 				reason = fmt.Sprintf("the client stopped at #%d", w.stoppedSeq)
 			}
 			for _, c := range w.causes {
-				if c.Kind != "close" && c.Begin < lastQ && len(w.qpoints) > 1 && c.Begin < w.qpoints[len(w.qpoints)-2] {
+				if !c.Optional && c.Kind != "close" && c.Begin < lastQ && len(w.qpoints) > 1 && c.Begin < w.qpoints[len(w.qpoints)-2] {
 					reason = fmt.Sprintf("the channel ended (%s at #%d)", c.Kind, c.Begin)
 				}
 			}
@@ -416,13 +419,19 @@ func (w *cliWorld) checkC05(final bool) {
 				if q.Notify || q.Answered {
 					continue
 				}
-				ctxish := q.GotCode == int(jrpc2.Cancelled) || q.GotCode == int(jrpc2.DeadlineExceeded) || q.GotCode == int(jrpc2.InternalError)
-				if !ctxish {
-					r.Fail("wrong-outcome", "Batch %d: response for %s is neither a reply of the peer nor a cancellation/stop error: %q code %d", op.Idx, q.Tag, q.GotErr, q.GotCode)
+				// not a reply of the peer: an error response is allowed once the client
+				// has stopped (any error) or the batch's context has ended (then it
+				// must be that context's error)
+				if q.GotErr == "" {
+					r.Fail("wrong-outcome", "Batch %d: response for %s is neither a reply of the peer nor an error", op.Idx, q.Tag)
 					return
 				}
-				if !(ctxEnd <= op.Return || stopped) {
-					r.Fail("wrong-outcome", "Batch %d: response for %s is a cancellation error (%d) but neither its context had ended nor the client stopped", op.Idx, q.Tag, q.GotCode)
+				if stopped || sendFault {
+					continue
+				}
+				own := (op.CtxKind == 1 && q.GotCode == int(jrpc2.Cancelled)) || (op.CtxKind == 2 && q.GotCode == int(jrpc2.DeadlineExceeded))
+				if !(ctxEnd <= op.Return && own) {
+					r.Fail("wrong-outcome", "Batch %d: response for %s is the error %q (code %d) although the peer sent no such reply, the client had not stopped, and it is not the error of the batch's context (kind %d, ended=%v)", op.Idx, q.Tag, q.GotErr, q.GotCode, op.CtxKind, ctxEnd <= op.Return)
 					return
 				}
 			}
@@ -485,6 +494,9 @@ func (w *cliWorld) checkC05Final() {
 		}
 		// first cause wins when it demonstrably completed before any other began
 		for _, a := range w.causes {
+			if a.Optional {
+				continue
+			}
 			if a.End < 0 {
 				for _, q := range w.qpoints {
 					if q > a.Begin {
